@@ -147,6 +147,8 @@ def _wire_case(case: dict[str, Any], out: CaseOut) -> None:
             if state >= 1:
                 c.login('alice')
                 by.login('alice')
+            if state >= 1:
+                c.command(b'CREATE ' + b'a' * 40)
             if state >= 2:
                 c.command(b'APPEND INBOX (\\Seen) {30+}',
                           b'Subject: x\r\nTo: a@b\r\n\r\nbody\r\n\r\n')
@@ -166,6 +168,33 @@ def _wire_case(case: dict[str, Any], out: CaseOut) -> None:
                          f'{data[:200]!r}: the loop never went idle')
                 return
             _judge(out, data, got, conn, state)
+            # further lines on the same connection (reaches the consecutive-
+            # BAD limit and multi-step effects such as CREATE then LIST)
+            pending = len(data) - (data.rfind(b'\n') + 1)
+            for extra in case.get('more') or []:
+                if conn.done or out.failures:
+                    break
+                if b'\n' not in extra:
+                    continue
+                if pending + len(extra) > 60000:
+                    continue    # would exceed the 64 KiB stream line limit
+                pending = 0
+                try:
+                    got2 = conn.cmd(extra)
+                except NoQuiescence:
+                    out.fail('no-quiescence', f'{extra[:200]!r}')
+                    break
+                _judge_simple(out, extra[:60], got2, conn, data)
+            if state >= 1 and not conn.done and not out.failures:
+                # names created above are echoed by LIST / LSUB
+                conn.cmd(b'\r\n')
+                for probe in (b'zl1 LIST "" *\r\n', b'zl2 LSUB "" *\r\n'):
+                    if conn.done:
+                        break
+                    got3 = conn.cmd(probe)
+                    if re.match(rb'\+ ', got3) or got3 == b'':
+                        break          # swallowed by a pending literal
+                    _judge_simple(out, probe.strip(), got3, conn, data)
             # the bystander must still be served
             r = by.conn.cmd(b'by9 NOOP\r\n')
             if b'by9 OK' not in r:
@@ -498,6 +527,9 @@ TEMPLATES = [
     b'APPEND INBOX %D %L', b'APPEND INBOX %L %L', b'APPEND INBOX (%F) %A',
     b'APPEND INBOX ~%L',
     b'SEARCH %K', b'UID SEARCH %K', b'SEARCH CHARSET %A %K',
+    b'SEARCH CHARSET UTF-8 %K', b'SEARCH CHARSET UTF-8 HEADER %A %A',
+    b'SEARCH CHARSET utf-8 OR FROM %A SUBJECT %A', b'SEARCH LARGER %N',
+    b'FETCH %N UID', b'FETCH 1 BODY[]<%N.%N>', b'UID FETCH %N:%N FLAGS',
     b'SEARCH RETURN (%A) %K', b'SEARCH %K %K %K',
     b'FETCH %S %T', b'UID FETCH %S %T', b'FETCH %S (%T %T)',
     b'FETCH %S (%T) (%A)', b'FETCH %S %A',
@@ -579,7 +611,8 @@ def _fill(tmpl: bytes, ints: list[int], atoms: list[bytes],
                 out += seq()
             elif h == b'N':
                 out += [b'0', b'1', b'2', b'10', b'4294967296',
-                        b'99999999999999999999', atom()][nxt() % 7]
+                        b'99999999999999999999', atom(), b'9' * 4301,
+                        b'1' + b'0' * 6000][nxt() % 9]
             elif h == b'F':
                 fl = [b'\\Seen', b'\\Deleted', b'\\Flagged \\Draft', b'$kw',
                       b'\\Recent', b'\\*', b'', atom(), b'\\' + atom()]
@@ -697,11 +730,14 @@ def strategy(tier: str) -> Any:
     line = _line()
     parse = line.map(lambda d: {'kind': 'parse', 'data': d})
     conts = st.lists(st.one_of(gen.nasty_atom(), st.just(b'*'),
-                               st.just(b'AGFsaWNlAHB3YWxpY2U=')),
+                               st.just(b'AGFsaWNlAHB3YWxpY2U='),
+                               st.sampled_from([b'AP8A/g==', b'//4=', b'/w==',
+                                                b'AGFsaWNlAP8=', b'='])),
                      max_size=3)
-    wire = st.tuples(line, st.integers(0, 2), conts).map(
+    more = st.lists(line, max_size=6)
+    wire = st.tuples(line, st.integers(0, 2), conts, more).map(
         lambda t: {'kind': 'wire', 'data': t[0], 'state': t[1],
-                   'conts': t[2]})
+                   'conts': t[2], 'more': t[3]})
     message = st.tuples(gen.any_message(),
                         st.sampled_from(['dict', 'dict', 'dict',
                                          'maildir'])).map(
